@@ -1,10 +1,11 @@
-\* all strings of length <= MaxLen over AlphabetNum
+\* catalogue lines: first, separator, second (two separators only: quick tier)
 CONSTANTS
     Alphabet <- AlphabetNum
-    MaxLen = 5
+    MaxLen = 0
+    Separators <- SeparatorsQuick
     TagHexFloats = TRUE
 INIT Init
-NEXT Next
+NEXT NextCat
 INVARIANT TypeOK
 INVARIANT StateIsRun
 INVARIANT Relex
